@@ -89,10 +89,40 @@ def check(ctx):
         p = Prov(f)
         short = name.split("::")[-1]
         eqs = [c_ for c_ in f.calls if c_.path.endswith("::eq") and "PartialEq" in c_.path]
+        helper = None
+        if not eqs:
+            # the final comparison may live in a tail helper shared by both verifiers: `helper(&computed, mhash, cid)`
+            # whose result is the function's result.  The comparison is then judged inside the helper, with the helper's
+            # parameters traced back to this function's arguments; reachability (whitelist) is judged at the helper call.
+            cands = [c_ for c_ in f.calls if c_.cid in F.fns and F.fns[c_.cid].kind != "Closure" and lib.returns_call_result(f, c_)
+                     and len([x for x in F.fns[c_.cid].calls if x.path.endswith("::eq") and "PartialEq" in x.path]) == 1]
+            if len(cands) == 1:
+                helper = (F.fns[cands[0].cid], cands[0])
+                eqs = [x for x in helper[0].calls if x.path.endswith("::eq") and "PartialEq" in x.path]
         if not ctx.require(len(eqs) == 1, "R-OP", short + ":one-compare", "exactly one equality comparison", "%s has %d equality comparisons" % (name, len(eqs))):
             continue
         eq = eqs[0]
-        a, b = p.operand(eq.args[0]), p.operand(eq.args[1])
+        if helper is not None:
+            hf, hcall = helper
+            hp_ = Prov(hf)
+            outer_args = [p.operand(x) for x in hcall.args]
+            a, b = lib.subst_params(hp_.operand(eq.args[0]), outer_args), lib.subst_params(hp_.operand(eq.args[1]), outer_args)
+            # inside the helper: Ok iff equal, no slicing
+            tblh = {}
+            for st in lib.enumerate_paths(hf, hp_, max_paths=40000):
+                ev = None
+                for br, val in st.conds:
+                    if not isinstance(br, str) and br.expr[0] == "call" and br.expr[3] is eq:
+                        ev = val
+                if ev is not None:
+                    tblh.setdefault(ev, set()).add(lib.path_result(hf, st))
+            slh = [c_.path for c_ in hf.calls if (any(c_.path.endswith(x) for x in SLICERS) or "core::ops::index::Index" in c_.path) and "PartialEq" not in c_.path]
+            ctx.require(tblh == {True: {"Ok"}, False: {"Err"}} and not slh, "R-TABLE", short + ":helper-ok-iff-equal", "tail helper %s: Ok iff digests are equal, no slicing" % hf.path.split("::")[-1],
+                        "the comparison helper %s has result table %s and slicing operations %s" % (hf.path, tblh, slh))
+            site_fn, site_call = f, hcall       # where the decision is reached in the verifier itself
+        else:
+            a, b = p.operand(eq.args[0]), p.operand(eq.args[1])
+            site_fn, site_call = f, eq
         dig = [x for x in (a, b) if x[0] == "call" and x[1].endswith("Multihash::digest")]
         oth = [x for x in (a, b) if not (x[0] == "call" and x[1].endswith("Multihash::digest"))]
         ok = len(dig) == 1 and len(oth) == 1
@@ -103,19 +133,23 @@ def check(ctx):
                     sample={"fn": name, "lhs": show(a)[:100], "rhs": show(b)[:100]})
         sl = [c_.path for c_ in f.calls if (any(c_.path.endswith(x) for x in SLICERS) or "core::ops::index::Index" in c_.path) and "PartialEq" not in c_.path]
         ctx.require(not sl, "R-OP", short + ":no-slicing", "no slicing / prefix / length operation on either side", "%s now uses %s near the digest comparison" % (name, sl))
-        tbl = {}
-        for st in lib.enumerate_paths(f, p, max_paths=40000):
-            ev = None
-            for br, val in st.conds:
-                if not isinstance(br, str) and br.expr[0] == "call" and br.expr[3] is eq:
-                    ev = val
-            if ev is not None:
-                tbl.setdefault(ev, set()).add(lib.path_result(f, st))
-        ctx.require(tbl == {True: {"Ok"}, False: {"Err"}}, "R-TABLE", short + ":ok-iff-equal", "Ok iff digests are equal", "%s result table is %s" % (name, tbl))
+        if helper is None:
+            tbl = {}
+            for st in lib.enumerate_paths(f, p, max_paths=40000):
+                ev = None
+                for br, val in st.conds:
+                    if not isinstance(br, str) and br.expr[0] == "call" and br.expr[3] is eq:
+                        ev = val
+                if ev is not None:
+                    tbl.setdefault(ev, set()).add(lib.path_result(f, st))
+            ctx.require(tbl == {True: {"Ok"}, False: {"Err"}}, "R-TABLE", short + ":ok-iff-equal", "Ok iff digests are equal", "%s result table is %s" % (name, tbl))
+        else:
+            ctx.require(lib.returns_call_result(f, site_call), "R-TABLE", short + ":ok-iff-equal", "the verifier returns the comparison helper's verdict unchanged",
+                        "%s does not return the comparison helper's result" % name)
         # whitelist: which Code variants reach the comparison
         codes = set()
         for st in lib.enumerate_paths(f, p, max_paths=40000):
-            if eq in st.calls:
+            if site_call in st.calls:
                 for k_, v_ in st.variants.items():
                     if v_ in ("Sha2_256", "Blake3_256") or v_.startswith(("Sha", "Blake", "Keccak", "Identity", "Ripemd", "Strobe")):
                         codes.add(v_)
@@ -127,7 +161,7 @@ def check(ctx):
             if okc:
                 rel_err = None
                 for tgt in (brs[0].true_bb, brs[0].false_bb):
-                    if eq.bb not in f.reach_from(tgt):
+                    if site_call.bb not in f.reach_from(tgt):
                         rel_err = brs[0].holds_on(tgt)
                 okc = rel_err is not None and rel_err[0] == "!="
             ctx.require(okc, "R-OP", short + ":codec-guard", "codec != JSON_CODEC -> error before any hashing", "verify_raw_value's codec guard changed")
